@@ -36,7 +36,7 @@ ASSUMPTIONS = ["clause 'exactly the most recent port' is judged only when "
 REQUIRED = ["frames", "arrivals_judged", "floods", "known_dst_forwards",
             "exact_port_checks", "cached_flow_hits", "filtered_frames",
             "host_moves", "buffers_released", "timeouts_crossed",
-            "unbuffered_packet_ins"]
+            "unbuffered_packet_ins", "bursts"]
 TIMEOUT = {"quick": 1200, "thorough": 9000}
 
 HOSTS = [bytes.fromhex("0200000000%02x" % (0xa0 + i)) for i in range(5)]
@@ -55,6 +55,8 @@ class Net (object):
     self.sw = []
     self.taps = []
     self.linkq = []
+    self.burst = None
+    self.burst_strays = []
     self.arrival_log = []
     for i in range(nsw):
       c, s = w.connect_switch_socket("s%d" % i)
@@ -96,8 +98,38 @@ class Net (object):
           tap["released"] += 1
 
   def _emitted (self, i, port, raw):
+    if self.burst is not None:
+      # several frames are in flight: attribute by content (every frame
+      # carries its own serial number)
+      rec = self.burst.get(bytes(raw))
+      if rec is not None and rec["sw"] == i:
+        rec["out"].append((port, raw))
+      else:
+        self.burst_strays.append((i, port, bytes(raw)))
+      return
     if self.cur is not None:
       self.cur["out"].append((port, raw))
+
+  def arrive_burst (self, i, frames):
+    """
+    Several frames arrive at switch i before the controller has answered any
+    of them (several packet-ins and buffers outstanding at once).
+    """
+    recs = [dict(sw=i, port=p, raw=r, out=[]) for p, r in frames]
+    self.burst = {bytes(r["raw"]): r for r in recs}
+    self.burst_strays = []
+    pins0 = len(self.taps[i]["pins"])
+    try:
+      for p, r in frames:
+        self.sw[i].inject(p, r)
+      self.w.run()
+    finally:
+      self.burst = None
+    new = self.taps[i]["pins"][pins0:]
+    for r in recs:
+      r["to_controller"] = any(m["data"] == r["raw"][:len(m["data"])] and
+                               len(m["data"]) >= 18 for m in new)
+    return recs
 
   def arrive (self, i, port, raw):
     """A frame arrives at switch i; returns the arrival record."""
@@ -164,97 +196,130 @@ def run_case (case, rep):
   nt = False
   uid = 0
   ok = True
+  def judge_arrival (i, port, fr, rec):
+    """Clauses 1-5 for one arrival; updates the learning model.  False = fired."""
+    nonlocal nt
+    rep.count("arrivals_judged")
+    outs = rec["out"]
+    ports = [p for p, _ in outs]
+    s_src = fr[6:12]; s_dst = fr[0:6]
+    etype = struct.unpack_from("!H", fr, 12)[0]
+    if not rec["to_controller"]:
+      rep.count("cached_flow_hits"); nt = True
+    # clause 1
+    if port in ports:
+      fire("frame sent back out its ingress port",
+           "switch %d in %d out %r" % (i, port, ports)); return False
+    if len(set(ports)) != len(ports):
+      fire("frame delivered twice on one port",
+           "switch %d out %r" % (i, ports)); return False
+    if any(b != fr for _, b in outs):
+      fire("forwarded frame was altered", "switch %d" % i); return False
+    others = [p for p in PORTS if p != port]
+    filtered = etype == 0x88cc or (s_dst[:5] == b"\x01\x80\xc2\x00\x00"
+                                   and s_dst[5] <= 0x0f)
+    known = s_dst in seen[i]
+    if filtered:
+      rep.count("filtered_frames")
+      if ports:
+        fire("link-local bridge-filtered frame was forwarded",
+             "switch %d dst %s type %#x out %r" % (i, s_dst.hex(), etype, ports))
+        return False
+    elif (s_dst[0] & 1) or not known:
+      rep.count("floods")
+      if sorted(ports) != others:
+        fire("frame to an unknown/broadcast/multicast address not "
+             "delivered to every other port",
+             "switch %d in %d dst %s out %r expected %r" %
+             (i, port, s_dst.hex(), sorted(ports), others))
+        return False
+    else:
+      rep.count("known_dst_forwards")
+      if not set(ports) <= seen[i][s_dst]:
+        fire("frame to a known address delivered to a port where that "
+             "address was never seen",
+             "switch %d dst %s out %r seen on %r" %
+             (i, s_dst.hex(), ports, sorted(seen[i][s_dst])))
+        return False
+      if rec["to_controller"] and last_ctl[i].get(s_dst):
+        rep.count("exact_port_checks")
+        want = [] if last_port[i][s_dst] == port else [last_port[i][s_dst]]
+        if ports != want:
+          fire("frame to a known address not delivered exactly to its "
+               "most recent port",
+               "switch %d in %d dst %s out %r expected %r" %
+               (i, port, s_dst.hex(), ports, want))
+          return False
+    # learn (the model of what this switch/controller pair has seen)
+    seen[i].setdefault(s_src, set()).add(port)
+    last_port[i][s_src] = port
+    last_ctl[i][s_src] = rec["to_controller"]
+    return True
+
+  # ops whose gap is -1 arrive together with the op before them (same switch,
+  # nothing runs in between): group them
+  groups = []
+  for op in case["ops"]:
+    if op[6] == -1 and groups and min(op[1], nsw - 1) == min(groups[-1][0][1], nsw - 1):
+      groups[-1].append(op)
+    else:
+      groups.append([op])
   try:
-    for op in case["ops"]:
-      h, at_sw, at_port, dst_kind, variant, size, gap = op
-      if at_sw >= nsw: at_sw = nsw - 1
-      if gap:
-        w.advance(gap)
-        if gap >= 11: rep.count("timeouts_crossed")
-      uid += 1
-      src = HOSTS[h]
-      if h in host_at and host_at[h] != (at_sw, at_port):
-        rep.count("host_moves"); nt = True
-      host_at[h] = (at_sw, at_port)
-      if dst_kind == "bcast": dst = BCAST
-      elif dst_kind == "mcast": dst = MCAST
-      elif dst_kind == "stp": dst = STP
-      elif dst_kind == "lldpdst": dst = LLDP_DST
-      else: dst = HOSTS[dst_kind]
-      raw = frame_for(src, dst, variant, size, uid)
-      rep.count("frames")
+    for group in groups:
+      first_frames = []
+      for op in group:
+        h, at_sw, at_port, dst_kind, variant, size, gap = op
+        if at_sw >= nsw: at_sw = nsw - 1
+        if gap and gap > 0:
+          w.advance(gap)
+          if gap >= 11: rep.count("timeouts_crossed")
+        uid += 1
+        src = HOSTS[h]
+        if h in host_at and host_at[h] != (at_sw, at_port):
+          rep.count("host_moves"); nt = True
+        host_at[h] = (at_sw, at_port)
+        if dst_kind == "bcast": dst = BCAST
+        elif dst_kind == "mcast": dst = MCAST
+        elif dst_kind == "stp": dst = STP
+        elif dst_kind == "lldpdst": dst = LLDP_DST
+        else: dst = HOSTS[dst_kind]
+        raw = frame_for(src, dst, variant, size, uid)
+        rep.count("frames")
+        first_frames.append((at_sw, at_port, raw))
       # propagate through the line topology
-      queue = [(at_sw, at_port, raw)]
+      if len(first_frames) > 1:
+        rep.count("bursts"); nt = True
+        try:
+          recs = net.arrive_burst(first_frames[0][0],
+                                  [(p, r) for _, p, r in first_frames])
+        except Exception:
+          fire("exception while a switch/controller handles a burst of frames",
+               traceback.format_exc()[-700:]); ok = False; break
+        if net.burst_strays:
+          fire("a frame was emitted that is none of the frames in flight",
+               repr([(i, p, b[:18].hex()) for i, p, b in net.burst_strays[:3]]))
+          ok = False; break
+        queue = [(i, p, r, rec) for (i, p, r), rec in zip(first_frames, recs)]
+      else:
+        queue = [first_frames[0] + (None,)]
       hops = 0
       while queue and ok:
-        i, port, fr = queue.pop(0)
+        i, port, fr, rec = queue.pop(0)
         hops += 1
         if hops > 50:
           fire("frame circulates", "more than 50 switch arrivals"); ok = False; break
         try:
-          rec = net.arrive(i, port, fr)
+          if rec is None: rec = net.arrive(i, port, fr)
         except Exception:
           fire("exception while a switch/controller handles a frame",
                traceback.format_exc()[-700:]); ok = False; break
-        rep.count("arrivals_judged")
+        if not judge_arrival(i, port, fr, rec):
+          ok = False; break
         outs = rec["out"]
-        ports = [p for p, _ in outs]
-        s_src = fr[6:12]; s_dst = fr[0:6]
-        etype = struct.unpack_from("!H", fr, 12)[0]
-        if not rec["to_controller"]:
-          rep.count("cached_flow_hits"); nt = True
-        # clause 1
-        if port in ports:
-          fire("frame sent back out its ingress port",
-               "switch %d in %d out %r" % (i, port, ports)); ok = False; break
-        if len(set(ports)) != len(ports):
-          fire("frame delivered twice on one port",
-               "switch %d out %r" % (i, ports)); ok = False; break
-        if any(b != fr for _, b in outs):
-          fire("forwarded frame was altered", "switch %d" % i); ok = False; break
-        others = [p for p in PORTS if p != port]
-        filtered = etype == 0x88cc or (s_dst[:5] == b"\x01\x80\xc2\x00\x00"
-                                       and s_dst[5] <= 0x0f)
-        known = s_dst in seen[i]
-        if filtered:
-          rep.count("filtered_frames")
-          if ports:
-            fire("link-local bridge-filtered frame was forwarded",
-                 "switch %d dst %s type %#x out %r" % (i, s_dst.hex(), etype, ports))
-            ok = False; break
-        elif (s_dst[0] & 1) or not known:
-          rep.count("floods")
-          if sorted(ports) != others:
-            fire("frame to an unknown/broadcast/multicast address not "
-                 "delivered to every other port",
-                 "switch %d in %d dst %s out %r expected %r" %
-                 (i, port, s_dst.hex(), sorted(ports), others))
-            ok = False; break
-        else:
-          rep.count("known_dst_forwards")
-          if not set(ports) <= seen[i][s_dst]:
-            fire("frame to a known address delivered to a port where that "
-                 "address was never seen",
-                 "switch %d dst %s out %r seen on %r" %
-                 (i, s_dst.hex(), ports, sorted(seen[i][s_dst])))
-            ok = False; break
-          if rec["to_controller"] and last_ctl[i].get(s_dst):
-            rep.count("exact_port_checks")
-            want = [] if last_port[i][s_dst] == port else [last_port[i][s_dst]]
-            if ports != want:
-              fire("frame to a known address not delivered exactly to its "
-                   "most recent port",
-                   "switch %d in %d dst %s out %r expected %r" %
-                   (i, port, s_dst.hex(), ports, want))
-              ok = False; break
-        # learn (the model of what this switch/controller pair has seen)
-        seen[i].setdefault(s_src, set()).add(port)
-        last_port[i][s_src] = port
-        last_ctl[i][s_src] = rec["to_controller"]
         # links
         for p, b in outs:
-          if p == 2 and i + 1 < nsw: queue.append((i + 1, 1, b))
-          elif p == 1 and i - 1 >= 0: queue.append((i - 1, 2, b))
+          if p == 2 and i + 1 < nsw: queue.append((i + 1, 1, b, None))
+          elif p == 1 and i - 1 >= 0: queue.append((i - 1, 2, b, None))
       if not ok: break
       # clause 6: at quiescence no buffer id is outstanding
       for i, tap in enumerate(net.taps):
@@ -308,6 +373,12 @@ def gen_exhaustive (n, shard, nshards, nsw):
       ops.append([combo[0][0], att[combo[0][0]][0], att[combo[0][0]][1],
                   combo[0][1], "plain", 50, 11])
       yield dict(nsw=nsw, pool=pool, ops=ops)
+      if nsw == 1:
+        # ... and the same frames arriving as one burst (all at the switch
+        # before the controller answers the first)
+        bops = [list(o) for o in ops[:-1]]
+        for o in bops[1:]: o[6] = -1
+        yield dict(nsw=nsw, pool=pool, ops=bops + [ops[-1]])
 
 
 def gen_random (rng, count, maxlen):
@@ -331,6 +402,8 @@ def gen_random (rng, count, maxlen):
                            if rng.random() < 0.25 else ["plain"])
       size = rng.choice([42, 50, 100, 124, 200, 1400])
       gap = rng.choice([0, 0, 0, 0, 5, 11, 31])
+      if ops and rng.random() < 0.2 and ops[-1][1] == att[h][0]:
+        gap = -1                     # arrives together with the frame before
       ops.append([h, att[h][0], att[h][1], d, variant, size, gap])
     yield dict(nsw=nsw, pool=pool, ops=ops)
 
